@@ -228,6 +228,21 @@ def cmd_compile(gp, seed, n, outdir):
         "pub fn use_it() -> Vec<u8> { parity_scale_codec::Encode::encode(&NAME::<u8, u64> { a: 1, b: 2, c: 3, d: 4 }) }\n"
         "pub fn use_it2() -> bool { <NAME<u8, u64> as parity_scale_codec::Decode>::decode(&mut &[1u8, 8, 4, 0, 0, 0, 0, 0, 0, 0][..]).is_ok() }\n",
         "accepts", "struct 4 p u32 c u32 s u32 p u32", None)
+    # associated-type projections of a type parameter - one of them NAMED LIKE THE DERIVING TYPE ITSELF
+    # (the derive leaves self-referential field types out of the where-clause; `P::NAME` is not one)
+    CFG = ("pub trait Cfg { type NAME; type Other; }\n"
+           "#[derive(parity_scale_codec::Encode, parity_scale_codec::Decode)]\npub struct Rt;\nimpl Cfg for Rt { type NAME = u32; type Other = u8; }\n")
+    add(CFG + D + "pub struct NAME<P: Cfg> { parent: P::NAME, others: Vec<P::Other> }\n"
+        "pub fn use_it() -> Vec<u8> { parity_scale_codec::Encode::encode(&NAME::<Rt> { parent: 7, others: vec![1] }) }\n"
+        "pub fn use_it2() -> bool { <NAME<Rt> as parity_scale_codec::Decode>::decode(&mut &[7u8, 0, 0, 0, 0][..]).is_ok() }\n",
+        "accepts", "struct 2 p u32 p u32", None)
+    add(CFG + D + "pub enum NAME<P: Cfg> { Emitted(Vec<P::NAME>, P::Other), #[codec(index = 9)] Quiet { since: (P::NAME, u8) } }\n"
+        "pub fn use_it() -> Vec<u8> { parity_scale_codec::Encode::encode(&NAME::<Rt>::Emitted(vec![1], 2)) }\n"
+        "pub fn use_it2() -> bool { <NAME<Rt> as parity_scale_codec::Decode>::decode(&mut &[9u8, 1, 0, 0, 0, 5][..]).is_ok() }\n",
+        "accepts", "enum 2 0 - - 2 p u32 p u32 0 9 - 1 p u32", None)
+    add(CFG + D + "pub struct NAME<P: Cfg>(Option<Box<NAME<P>>>, P::NAME, #[codec(compact)] u64);\n"
+        "pub fn use_it() -> Vec<u8> { parity_scale_codec::Encode::encode(&NAME::<Rt>(None, 3, 4)) }\n",
+        "accepts", "struct 3 p u32 p u32 c u32", None)
     # CompactAs shape
     ca = "#[derive(parity_scale_codec::Encode, parity_scale_codec::Decode, parity_scale_codec::CompactAs)]\n"
     add(ca + "pub struct NAME(u32);\n", "acceptsca", "struct 1 p u32", None)
